@@ -185,6 +185,76 @@ def run(tier, seed):
   for i in bad[:5]:
     broke = (broke or '') + ' correspondence merge_trial_metadata model vs code on %r' % (tobjs[i],)
 
+  # ---- the single-value encoder: metadata_util.assign / get / get_proto and make_key_value_list / from_key_value_list with string,
+  # Message and already-packed Any values (a value read from the wire and written again is an Any): the value read is the value written last
+  from google.protobuf import any_pb2, duration_pb2
+  for ai in range(n_mg // 4):
+    container = r.choice([study_pb2.StudySpec, study_pb2.Trial])()
+    want = {}
+    script = []
+    for _ in range(r.randrange(1, 7)):
+      ns_s, key = r.choice(['', ':a', ':a:b']), r.choice(['k', 'k2', ''])
+      kind = r.choice(['str', 'msg', 'any', 'any'])
+      dur = duration_pb2.Duration(seconds=r.randrange(5), nanos=r.choice([0, 7]))
+      if kind == 'str':
+        value, canon_v = r.choice(['v', '', 'w']), None
+      elif kind == 'msg':
+        value = dur
+      else:
+        value = any_pb2.Any()
+        value.Pack(dur)
+      if kind == 'str':
+        want[(ns_s, key)] = ('str', value)
+      else:
+        want[(ns_s, key)] = ('dur', dur.seconds, dur.nanos)
+      script.append((ns_s, key, kind, str(value)[:30]))
+      metadata_util.assign(container, key=key, ns=ns_s, value=value, mode='insert_or_assign')
+    rep.case({'assign_script': script}, len(script) > 2)
+    rep.count('assign_script')
+    for (ns_s, key), w in want.items():
+      if w[0] == 'str':
+        got = ('str', metadata_util.get(container, key=key, ns=ns_s))
+        gotp = metadata_util.get_proto(container, key=key, ns=ns_s, cls=duration_pb2.Duration)
+        if gotp is not None:
+          got = ('both', got, str(gotp))
+      else:
+        m = metadata_util.get_proto(container, key=key, ns=ns_s, cls=duration_pb2.Duration)
+        got = None if m is None else ('dur', m.seconds, m.nanos)
+        if metadata_util.get(container, key=key, ns=ns_s) is not None:
+          got = ('both', got)
+      if got != w:
+        concrete = True
+        rep.violation('metadata_util.assign / get: the value read back is not the value written last',
+                      {'script': script, 'ns': ns_s, 'key': key, 'want': w, 'got': got})
+    if len(container.metadata) != len(want):
+      concrete = True
+      rep.violation('metadata_util.assign(insert_or_assign) stored %d entries for %d distinct (ns, key)' % (len(container.metadata), len(want)),
+                    {'script': script})
+    # pyvizier Metadata -> KeyValue list -> Metadata -> KeyValue list (second conversion identical, values kept)
+    md = vzc.Metadata()
+    for (ns_s, key), w in want.items():
+      if w[0] == 'str':
+        md.abs_ns(vzc.Namespace.decode(ns_s))[key] = w[1]
+      else:
+        a = any_pb2.Any()
+        a.Pack(duration_pb2.Duration(seconds=w[1], nanos=w[2]))
+        md.abs_ns(vzc.Namespace.decode(ns_s))[key] = a
+    kvs = metadata_util.make_key_value_list(md)
+    md2 = metadata_util.from_key_value_list(kvs)
+    kvs2 = metadata_util.make_key_value_list(md2)
+    ser = lambda l: sorted((k.ns, k.key, k.value, k.proto.type_url, bytes(k.proto.value)) for k in l)
+    if ser(kvs) != ser(kvs2):
+      concrete = True
+      rep.violation('make_key_value_list(from_key_value_list(x)) differs from x (a value changes when it is written again)',
+                    {'first': [str(k)[:80] for k in kvs], 'second': [str(k)[:80] for k in kvs2]})
+    for k in kvs:
+      w = want[(k.ns, k.key)]
+      if w[0] == 'dur':
+        d2 = duration_pb2.Duration()
+        if not (k.HasField('proto') and k.proto.Unpack(d2) and (d2.seconds, d2.nanos) == (w[1], w[2])):
+          concrete = True
+          rep.violation('make_key_value_list does not carry the protobuf value that was written', {'kv': str(k)[:120], 'want': w})
+
   # ---- end-to-end through the service (both datastores), if the service driver is available
   try:
     from harness import svc
